@@ -71,6 +71,8 @@ CLASSES = [
     ('USet', uc.USet, 'coll'),
     ('UColl', uc.UColl, 'coll'),
     ('UMap', uc.UMap, 'map'),
+    ('UPatchSeq', uc.UPatchSeq, 'seq'),
+    ('UPatchMap', uc.UPatchMap, 'map'),
     ('UIterable', uc.UIterable, 'iterable'),
     ('UIterator', uc.UIterator, 'iter1'),
     ('USizedIterator', uc.USizedIterator, 'iter1'),
@@ -107,10 +109,10 @@ HASHABLE_ATOMS = ['object', 'int', 'bool', 'float', 'complex', 'str', 'bytes', '
                   'function', 'UA', 'UB', 'UC', 'UH', 'UImpl', 'UContainer', 'UGenPlain',
                   'EColor', 'ENum', 'type', 'ABCMeta', 'ProtocolMeta', 'range',
                   'UIterable', 'UIterator', 'USizedIterator', 'UReversible', 'list_iterator', 'generator',
-                  'USeq', 'UColl', 'dict_values']
+                  'USeq', 'UColl', 'dict_values', 'UPatchSeq']
 HASHABLE_DEEP = ['tuple', 'frozenset']
 NEEDS_HASHABLE_ITEMS = ['set', 'frozenset', 'dict', 'defaultdict', 'OrderedDict', 'Counter',
-                        'ChainMap', 'dict_keys', 'USet', 'UMap', 'UGenDict']
+                        'ChainMap', 'dict_keys', 'USet', 'UMap', 'UGenDict', 'UPatchMap']
 
 STR_CONSTS = {'': 0, 'a': 1, 'b': 2, 'ab': 3, 'r': 4, 'g': 5}
 BYTES_CONSTS = {b'': 0, b'a': 1, b'b': 2}
